@@ -168,6 +168,19 @@ fn main() {
                 notes.push(format!("history whose replies are not reproducible: {path}"));
                 continue;
             }
+            if v.replay.get("engine").and_then(|m| m.as_str()) == Some("IN") && r1 == r2 {
+                // The judged operations of the input-space engine are functions of their arguments and
+                // the judgement is deterministic.  A violation that was observed on the real code while
+                // the other pool threads were using the library, and that is absent when the same case
+                // runs alone, means the answer depended on what other threads (or earlier calls) were
+                // doing: that is a violation of the property, not of the machinery.
+                n += 1;
+                unlisted += 1;
+                println!("  {}/result-depends-on-context — observed during the parallel exploration as {sig}, absent when the recorded case runs alone: the operation's answer depended on other threads or earlier calls\n    expected: {}\n    observed: {}", v.property, v.expected, v.observed);
+                println!("VIOLATION property={} replay={}", prop, path);
+                notes.push(format!("case whose verdict depends on its context: {path}"));
+                continue;
+            }
             machinery(&format!("violation does not reproduce deterministically from its replay file {path} (if this is an agent check, ambient state in the agent is a possible cause: run C20)"));
         }
         if v.property != prop && prop == "C20" && std::env::var("VERIF_PRISTINE").is_err() {
